@@ -48,3 +48,16 @@ def replay(path):
     for (c, f) in sorted(seen):
         print(f"VIOLATION property={prop} replay={path}  ({c}|{f})")
     return 1 if seen else 0
+
+
+def probe(hexes):
+    """decode the given hex frames with the real code, judge them with TLC, print everything"""
+    hx = core.build_hx("std")
+    events = core.run_hx(hx, ["decode", "--ops", "--text"], [{"bytes": list(bytes.fromhex(h))} for h in hexes])
+    verdicts, st, tr = core.validate_events("Trace_Decode", events, "probe", shards=1)
+    for i, e in enumerate(events):
+        print(hexes[i], json.dumps(e["out"], sort_keys=True), e["outcome"])
+        for v in verdicts:
+            if v["index"] == i:
+                print("   VERDICT", v["cls"], v["pairs"])
+    return 0
